@@ -12,7 +12,7 @@ ID = "C06"
 RULE = (
     "Generated: (a) no filter: instance of any shape incl. zero durations and "
     "flexible operations; (b) a composition of 1-4 built-in filters: instance "
-    "with positive durations; x choice sequence over available_operations(). "
+    "with positive durations; x choice sequence over available_operations(), optionally after an abandoned episode and a reset(), the new episode then optionally starting with an equally long stretch in which the dispatcher is not queried. "
     "Oracle along the history, read from the real dispatcher: current_time() "
     "never decreases, completed_operations() only grows, current_time() equals "
     "the independent model's minimum start over the (model-filtered) ready "
@@ -56,6 +56,7 @@ def _cases(draw, tier):
         "history": draw(gen.histories()),
         "observers": observers,
         "pre": draw(st.one_of(st.just(0), st.just(0), st.integers(1, 12))),
+        "blind": draw(gen.pick([False, True])),
     }
 
 
@@ -179,6 +180,7 @@ def check_case(case, ctx):
         return now, done
 
     pre = min(case.get("pre", 0), n)
+    blind = bool(case.get("blind")) and pre > 0
     if pre:
         # an earlier, abandoned episode on the same dispatcher (and twin)
         from ..lib import ref as _ref
@@ -190,25 +192,43 @@ def check_case(case, ctx):
             drv.dispatch(j, p, mm)
             if twin is not None:
                 twin.dispatch(j, p, mm)
+        if blind:
+            d.current_time()
+            d.completed_operations()
         d.reset()
         drv.model = m = _ref(inst)
         if twin is not None:
             twin.dispatcher.reset()
             twin.model = _ref(inst)
         ctx.label("after_reset")
-    now, done = observe("initial")
+    if blind:
+        # the new episode starts with a stretch in which nothing is asked of
+        # the dispatcher (operations are picked with the model's help), as
+        # long as the abandoned episode was
+        now, done = 0, set()
+        ctx.label("unobserved_stretch")
+    else:
+        now, done = observe("initial")
     values = {now}
     unchanged = False
     for k in range(n):
         a, b = history[k] if k < len(history) else (0, 0)
-        if not d.available_operations():
-            ctx.fail("deadlock", f"step {k}: no available operation but {n - k} unscheduled")
-            return
-        j, p, mm = drv.choose(a, b, "available")
+        if blind and k < pre:
+            cands = m.available(filters) or m.ready()
+            j, p = cands[a % len(cands)]
+            ms = inst["machines"][j][p]
+            mm = ms[b % len(ms)]
+        else:
+            if not d.available_operations():
+                ctx.fail("deadlock", f"step {k}: no available operation but {n - k} unscheduled")
+                return
+            j, p, mm = drv.choose(a, b, "available")
         drv.dispatch(j, p, mm)
         if twin is not None:
             twin.dispatch(j, p, mm)
         where = f"after dispatch {k} of ({j},{p}) on {mm}"
+        if blind and k < pre - 1:
+            continue
         now2, done2 = observe(where, pre=(a * 7 + b) % 8 if (a + b) % 3 == 0 else 0)
         ctx.check(now2 >= now, "clock-decreased", f"{where}: {now} -> {now2}")
         ctx.check(
